@@ -1833,7 +1833,12 @@ func DerefFunction(name string) ZlispUserFunction {
 				//P("ptr.PointedToType = '%#v'", ptr.PointedToType)
 				pt := payload.Type()
 				tt := ptr.PointedToType
-				if tt == pt && tt.RegisteredName == pt.RegisteredName {
+				// an instance keeps the definition it was created under: after a
+				// redeclaration of the struct the registry (and so Type()) knows only
+				// the new definition, so compare the definitions the two records carry.
+				target, isHash := ptr.Target.(*SexpHash)
+				sameDefn := isHash && target.declaredStruct() == payload.declaredStruct()
+				if tt == pt && tt.RegisteredName == pt.RegisteredName && sameDefn {
 					//P("have matching type!: %v", tt.RegisteredName)
 					ptr.Target.(*SexpHash).CloneFrom(payload)
 					return
